@@ -154,6 +154,7 @@ type pathRun struct {
 	mutexes map[*value]*muState
 	locals  []*localCtx
 	replayPos int
+	digests []digestRec
 	sites   map[string]int
 	known   map[*Term]bool // terms assumed on the global path (syntactic pruning)
 	wgs     map[*value]*wgState
